@@ -111,10 +111,12 @@ def read_all(sock, timeout=5.0):
 class PairDriver(object):
     """drives the real server object over socket.socketpair()"""
 
-    def __init__(self, handlers, timeout=0.35):
+    def __init__(self, handlers, timeout=5.0):
         from hl7apy.mllp import MLLPServer
         self.server = MLLPServer('127.0.0.1', 0, handlers, timeout=timeout)
+        self.timeout = timeout
         self.n = 0
+        self.max_gap = 0.0     # longest time the server side was left without the next chunk during the last run()
 
     def close(self):
         self.server.server_close()
@@ -124,8 +126,14 @@ class PairDriver(object):
         a, b = socket.socketpair()
         self.n += 1
         threads_before = set(threading.enumerate())
+        self.max_gap = 0.0
+        last = time.monotonic()
         self.server.process_request(b, ('socketpair', self.n))
         for c in chunks:
+            if not isinstance(c, tuple):
+                now = time.monotonic()
+                self.max_gap = max(self.max_gap, now - last)
+                last = now
             if c is None:
                 try:
                     a.shutdown(socket.SHUT_WR)
@@ -134,6 +142,7 @@ class PairDriver(object):
                 continue
             if isinstance(c, tuple):
                 time.sleep(c[1])
+                last = time.monotonic()     # a deliberate stall is not a scheduling hiccup
                 continue
             try:
                 a.sendall(c)
